@@ -115,6 +115,8 @@ def has_effect(F, node):
                 op.path[0] == 'self':
             return True
         if op.kind == 'call':
+            if op.inlined:
+                continue     # its body is in the graph
             if op.path is None:
                 return True
             if op.path[0] == 'self' and len(op.path) >= 2:
@@ -203,3 +205,178 @@ def r1(R):
             else:
                 check_end(R, cls, g, F, name, meth,
                           must_raise_foreign=(meth == 'tpc_finish'))
+
+
+# ----------------------------------------------------------------- C05.R2
+
+def const_int(e, value):
+    return isinstance(e, ast.Constant) and e.value == value and \
+        not isinstance(e.value, bool)
+
+
+@rule('C05.R2', 'FileStorage abort undoes the vote: truncate to the committed '
+      'end, drop reader buffers, reset, clear staging', min_instances=1)
+def r2(R):
+    cls = R.prog.cls(FS)
+    f = R.method(cls, 'tpc_abort')
+    g, b, F = R.cfg(f, cls)
+    R.instance('FileStorage.tpc_abort', defined_in=f.qualname,
+               cfg_nodes=len(g.reachable()))
+    NEED = ('truncate', 'poolflush', 'nextpos0', 'tindex.clear',
+            'tfile.rewind', 'owner.clear')
+    seen_ops = set()
+
+    def events(node, lab):
+        ev = set()
+        for op in F.ops(node):
+            if op.kind == 'call':
+                if path_is(op.path, ('self', '_file', 'truncate')) and \
+                        op.ast.args and F.canon(op.ast.args[0], node.frame) \
+                        == ('self', '_pos'):
+                    ev.add('truncate')
+                if path_is(op.path, ('self', '_files', 'flush')):
+                    ev.add('poolflush')
+                if path_is(op.path, ('self', '_tindex', 'clear')):
+                    ev.add('tindex.clear')
+                if path_is(op.path, ('self', '_tfile', 'seek')) and \
+                        op.ast.args and const_int(op.ast.args[0], 0):
+                    ev.add('tfile.rewind')
+            if op.kind == 'store' and lab != 'e':
+                v = store_value(op)
+                if path_is(op.path, ('self', '_nextpos')) and v is not None \
+                        and const_int(v, 0):
+                    ev.add('nextpos0')
+                if path_is(op.path, ('self', '_transaction')) and \
+                        v is not None and is_none_const(v):
+                    ev.add('owner.clear')
+        if node.kind == 'test' and lab in ('T', 'F'):
+            from ..flow import truth_test
+            e, truthy_when_true, _none = truth_test(node.ast)
+            p = F.canon(e, node.frame) if e is not None else None
+            taken_truthy = truthy_when_true if lab == 'T' else \
+                (not truthy_when_true)
+            if p == ('self', '_nextpos') and not taken_truthy:
+                ev |= {'truncate', 'poolflush', 'nextpos0'}   # nothing voted
+            if p == ('self', '_tfile') and not taken_truthy:
+                ev.add('tfile.rewind')                         # read-only: no file
+        return ev
+
+    def edge(node, st, lab, tgt):
+        matched, done = st
+        same = identity_guard(node, F)
+        if same is not None and lab in ('T', 'F'):
+            return (lab == same, done)
+        ev = events(node, lab)
+        seen_ops.update(ev)
+        if ev:
+            done = frozenset(done | ev)
+        # the truncate must come before the position it uses is reset
+        return (matched, done)
+
+    def at(node, st):
+        matched, done = st
+        if node.id == g.exit_return and matched is True:
+            missing = [n for n in NEED if n not in done]
+            if missing:
+                return Violation('a path through tpc_abort for the '
+                                 'transaction being committed skips: %s' %
+                                 ', '.join(missing))
+        return st
+
+    vs, stats = explore(g, (None, frozenset()), at=at, edge=edge)
+    R.count(stats)
+    R.require(set(NEED) <= seen_ops,
+              'abort effects not found at all: %s' % (set(NEED) - seen_ops))
+    for v in vs:
+        R.violation((f.module.relpath, f.qualname, 'abort-effects', None),
+                    v.message, g, v.path, instance='FileStorage.tpc_abort')
+
+
+# ----------------------------------------------------------------- C05.R3
+
+GUARDED = {
+    FS: ('store', 'deleteObject', 'restore', 'undo', 'tpc_vote', 'tpc_finish',
+         'checkCurrentSerialInTransaction', 'storeBlob', 'restoreBlob'),
+    MS: ('store', 'tpc_vote', 'tpc_finish',
+         'checkCurrentSerialInTransaction'),
+    DS: ('store', 'storeBlob', 'tpc_vote', 'tpc_finish',
+         'checkCurrentSerialInTransaction'),
+    BLOBSTORAGE: ('tpc_finish',),
+}
+ABORTS = (FS, MS, DS, BLOBSTORAGE)
+
+
+def delegation(F, node, meth):
+    """A call `self.<delegate>.<meth>(..., transaction | *args ...)`."""
+    for op in F.ops(node):
+        if op.kind == 'call' and op.path is not None and \
+                op.path[0] == 'self' and len(op.path) == 3 and \
+                op.path[2] == meth:
+            c = op.ast
+            for a in c.args:
+                if isinstance(a, ast.Starred):
+                    return True
+                p = F.canon(a, node.frame) if isinstance(
+                    a, (ast.Name, ast.Attribute)) else None
+                if p is not None and p[0] == '%param':
+                    return True
+    return False
+
+
+def check_guard(R, cls, meth, raise_foreign):
+    f = R.method(cls, meth)
+    g, b, F = R.cfg(f, cls)
+    name = '%s.%s' % (cls.name, meth)
+    R.instance(name, defined_in=f.qualname, cfg_nodes=len(g.reachable()))
+    guards = [0]
+
+    def edge(node, st, lab, tgt):
+        matched = st
+        same = identity_guard(node, F)
+        if same is not None and lab in ('T', 'F'):
+            guards[0] += 1
+            return lab == same
+        if matched is None and delegation(F, node, meth):
+            guards[0] += 1
+            # the delegate compares the transaction itself; if it raises for a
+            # foreign one, falling through means "matched"
+            if lab == 'e':
+                return None
+            return True if raise_foreign else None
+        if matched is False and has_effect(F, node):
+            return Violation('%s has an effect although the caller\'s '
+                             'transaction is not the one being committed' %
+                             name)
+        if matched is None and has_effect(F, node) and node.kind != 'precond':
+            return Violation('%s has an effect that is not dominated by the '
+                             'transaction-identity check' % name)
+        return matched
+
+    def at(node, st):
+        if node.id == g.exit_return and st is False and raise_foreign:
+            return Violation('%s returns normally for a transaction that is '
+                             'not the one being committed' % name)
+        return st
+
+    vs, stats = explore(g, None, at=at, edge=edge)
+    R.count(stats)
+    R.require(guards[0] > 0 or vs, '%s: no identity guard recognised' % name)
+    for v in vs:
+        R.violation(v.node, v.message, g, v.path, instance=name, at_root=True)
+
+
+@rule('C05.R3', 'transaction-identity guard dominates every effect of the '
+      '2PC methods; tpc_abort has no effect for a foreign transaction',
+      props=['C03', 'C13'], min_instances=20)
+def r3(R):
+    for q, meths in GUARDED.items():
+        cls = R.prog.cls(q)
+        for meth in meths:
+            if R.prog.find_method(cls, meth) is None:
+                R.require(meth in ('storeBlob', 'restoreBlob'),
+                          '%s.%s vanished' % (cls.name, meth))
+                continue
+            check_guard(R, cls, meth, raise_foreign=True)
+    for q in ABORTS:
+        cls = R.prog.cls(q)
+        check_guard(R, cls, 'tpc_abort', raise_foreign=False)
